@@ -73,12 +73,16 @@ def cases(ctx):
             out.append((op, rep, sizes))
         for sizes in cut_sets(n, 2):
             out.append((op, rep, [x for s in sizes for x in (0, s)]))          # EINTR before every piece
+        for sizes in cut_sets(n, 1):                                          # ... and runs of interrupted calls in a row
+            out.append((op, rep, [x for s in sizes for x in (0, 0, s)]))
+            out.append((op, rep, [x for s in sizes for x in (0, 0, 0, 0, 0, s)]))
     for op, rep in LONG:
         n = len(rep)
         for sizes in cut_sets(n, 2 if ctx.quick else 3):
             out.append((op, rep, sizes))
         out.append((op, rep, [1] * n))
         out.append((op, rep, [x for _ in range(n) for x in (0, 1)]))
+        out.append((op, rep, [x for _ in range(n) for x in (0, 0, 0, 1)]))
         out.append((op, rep, []))
     big = b"x" * 4090 + b"\r\n" + b"y" * 4100
     rep = b"VALUE k 0 %d\r\n" % len(big) + big + b"\r\nEND\r\n"
@@ -110,7 +114,7 @@ def correspondence(ctx):
                     "bytes): ALL 2^(n-1) segmentations of 15 replies of up to %d bytes (delete/incr/version/store/touch/flush/"
                     "get miss/raw_command with three end tokens/error/CR-laden lines), all <=%d-cut segmentations and single-byte "
                     "delivery of 12 longer replies (values with CR LF and keywords, cas, multi-key, set_many, stats, gat/gats, "
-                    "config get cluster), EINTR before every piece, cuts at 4096k+{-2..2} of an 8 KiB value; non-trivial = >= 2 pieces"
+                    "config get cluster), EINTR before every piece and runs of 2, 3 and 5 EINTRs in a row, cuts at 4096k+{-2..2} of an 8 KiB value; non-trivial = >= 2 pieces"
                     % (12 if ctx.quick else 16, 2 if ctx.quick else 3),
             "samples": [{"op": repr(o), "reply": repr(r)[:60], "chunks": s} for o, r, s in cl[1000:1003]],
             "distribution": {"short_reply_cases": sum(1 for o, r, s in cl if len(r) <= 16), "long_reply_cases": sum(1 for o, r, s in cl if len(r) > 16),
